@@ -162,8 +162,7 @@ Definition value_write (c : cfg) (st : srv_state) (sec : bool * N) (s : service_
           if k || c_no_write ch then (st, Err err_write_not_permitted)
           else let '(r, m) := mem_write (get_val st gci) off data in
                (set_vals st (upd (vals st) gci m), r)
-      | VFixed _ _ =>
-          if c_no_read ch then (st, Err err_read_not_permitted) else (st, Err err_write_not_permitted)
+      | VFixed _ _ => (st, Err err_write_not_permitted)
       | VString _ => (st, Err err_write_not_permitted)
       | VHandler _ _ hwr blob =>
           if negb hwr then (st, Err err_write_not_permitted)      (* invoke_write_handler< no_such_type > *)
@@ -180,7 +179,7 @@ Definition value_other (c : cfg) (sec : bool * N) (s : service_decl) (ch : char_
   match security_check (char_requires_encryption c s ch) (fst sec) (snd sec) with
   | Success =>
       match c_value ch with
-      | VFixed _ _ => if c_no_read ch then Err err_read_not_permitted else Err err_write_not_permitted
+      | VFixed _ _ => Err err_write_not_permitted
       | VHandler _ _ _ _ => Err err_request_not_supported
       | _ => Err err_write_not_permitted
       end
@@ -247,19 +246,12 @@ Definition access_write (c : cfg) (st : srv_state) (cid : nat) (a : attr) (off :
       end
   end.
 
-(* attribute_access_arguments::check_write( server ): an EMPTY write at offset 0 with a default
-   (null) client configuration and default security attributes (not encrypted, no key): DESIGN 7
-   item 7. On a CCCD attribute the null configuration is dereferenced: assert( data_ ) -> Fault. *)
-Definition access_check_write (c : cfg) (st : srv_state) (a : attr) : option (srv_state * acc_res) :=
-  match a with
-  | AService _ | AInclude _ | ACharDecl _ _ | ADesc _ _ | AUserDesc _ => Some (st, Err err_write_not_permitted)
-  | AValue s ch gci _ => Some (value_write c st (false, 0) s ch gci 0 [])
-  | ACccd s ch _ =>
-      match security_check (char_requires_encryption c s ch) false 0 with
-      | Success => None
-      | r => Some (st, r)
-      end
-  end.
+(* attribute_access_arguments::check_write( cc, cs, server ): an EMPTY write at offset 0 with the
+   connection's client configuration and security attributes (fix/C07-check-write-connection; before,
+   default security attributes and a null configuration: DESIGN 7 item 7). A write handler is still
+   called with the empty write (known finding C07). *)
+Definition access_check_write (c : cfg) (st : srv_state) (cid : nat) (a : attr) : option (srv_state * acc_res) :=
+  access_write c st cid a 0 [].
 
 (* attribute.access( compare_value ): only the service declaration ever answers value_equal *)
 Definition access_compare_value (c : cfg) (st : srv_state) (cid : nat) (a : attr) (data : list N) : acc_res :=
@@ -358,14 +350,15 @@ Definition uuid128_of_decl (c : cfg) (index : N) : option (list N) :=
   | _ => None
   end.
 
-(* collect_handle_uuid_tuples *)
+(* collect_handle_uuid_tuples; [e] is the ending HANDLE (fix/C02-C03-discovery). Attributes of the other
+   uuid format are skipped and the scan goes on: DESIGN 7 item 3 *)
 Fixpoint collect_handle_uuid_tuples (fuel : nat) (c : cfg) (start e : N) (only16 : bool) (b : list N) (out out_end : N)
   : option (list N * N) :=
   match fuel with
   | O => Some (b, out)
   | S f =>
       let size_per_tuple := if only16 then 4 else 18 in
-      if ((start <=? e) || (e =? invalid_index)) && (start <? number_of_attributes c)
+      if (start <? number_of_attributes c) && (handle_by_index c start <=? e)
          && (size_per_tuple <=? out_end - out) then
         do a <- attribute_at c start;
         let is16 := negb (attr_uuid a =? internal_128bit_uuid) in
@@ -386,26 +379,29 @@ Definition handle_find_information (c : cfg) (pdu b : list N) (out_size : N) : o
       let start_index := first_index_by_handle c sh in
       do a <- attribute_at c start_index;
       let only16 := negb (attr_uuid a =? internal_128bit_uuid) in
-      let ending_index := ending_index_of c eh in
+      if eh <? handle_by_index c start_index then          (* the range lies within a gap *)
+        do opcode <- rd pdu 0; error_response opcode err_attribute_not_found sh b out_size
+      else
       do b1 <- put b 0 [5];
       do bp <- (if negb (1 =? out_size) then do b2 <- put b1 1 [if only16 then 1 else 2]; Some (b2, 2)
                 else Some (b1, 1));
       let '(b2, p) := bp in
-      do r <- collect_handle_uuid_tuples (S (N.to_nat (number_of_attributes c))) c start_index ending_index only16 b2 p out_size;
+      do r <- collect_handle_uuid_tuples (S (N.to_nat (number_of_attributes c))) c start_index eh only16 b2 p out_size;
       Some r
   end.
 
 (* ------------------------------------------------------------------ Find By Type Value *)
-(* services_by_group< collect_find_by_type_groups, value_filter >::each over the services.
-   NOTE the declaration type (primary / secondary) is never tested: DESIGN 7 item 4 *)
+(* services_by_group< collect_find_by_type_groups, value_filter >::each over the services; [ei] is the
+   ending HANDLE; only <<Primary Service>> declarations are considered (fix/C02-C03-discovery) *)
 Fixpoint services_by_group (c : cfg) (st : srv_state) (cid : nat) (ss : list service_decl) (index si ei : N)
          (value : list N) (b : list N) (cur e : N) (found : bool) : option (list N * N * bool) :=
   match ss with
   | [] => Some (b, cur, found)
   | s :: t =>
       let next := index + svc_nattrs s in
-      if (negb (si =? invalid_index) && (si <=? index)) && ((index <=? ei) || (ei =? invalid_index)) then
+      if (negb (si =? invalid_index) && (si <=? index)) && (handle_by_index c index <=? ei) then
         do a <- attribute_at c index;
+        if negb (attr_uuid a =? uuid_primary_service) then services_by_group c st cid t next si ei value b cur e found else
         match access_compare_value c st cid a value with
         | ValueEqual =>
             (* collect_find_by_type_groups::operator() *)
@@ -428,7 +424,7 @@ Definition handle_find_by_type_value (c : cfg) (st : srv_state) (cid : nat) (pdu
       if negb (ty =? uuid_primary_service) then error_response opcode err_unsupported_group_type sh b out_size
       else
         do value <- slice pdu 7 (len pdu);
-        do r <- services_by_group c st cid (services c) 0 (first_index_by_handle c sh) (ending_index_of c eh) value b 1 out_size false;
+        do r <- services_by_group c st cid (services c) 0 (first_index_by_handle c sh) eh value b 1 out_size false;
         let '(b1, cur, found) := r in
         if found then
           do b2 <- put b1 0 [7];
@@ -466,19 +462,27 @@ Definition handle_read_blob (c : cfg) (st : srv_state) (cid : nat) (pdu b : list
 (* uuid_filter *)
 Definition base_uuid_prefix : list N := [251; 52; 155; 95; 128; 0; 0; 128; 0; 16; 0; 0].
 
-Inductive ufilter := F16 (u : N) | F128.
+Inductive ufilter := F16 (u : N) | F128 (bytes : list N).
 (* uuid_filter( input + 5, in_size == 5 + 16 ) *)
 Definition make_uuid_filter (pdu : list N) (is128 : bool) : option ufilter :=
   if is128 then
     do bytes <- slice pdu 5 21;
     if bytes_eqb (takeN 12 bytes) base_uuid_prefix && (nth 14 bytes 1 =? 0) && (nth 15 bytes 1 =? 0)
     then do u <- rd16 pdu 17; Some (F16 u)
-    else Some F128
+    else Some (F128 bytes)
   else do u <- rd16 pdu 5; Some (F16 u).
-(* operator(): a 128 bit filter compares through access( compare_128bit_uuid ), which no attribute
-   answers with uuid_equal: a 128 bit type never matches (as in the code) *)
+(* operator(): a 128 bit filter compares through access( compare_128bit_uuid ), which the value attribute
+   of a characteristic with a 128 bit uuid answers; the internal marker 0x0001 is no 16 bit type
+   (fix/C02-C03-discovery) *)
 Definition uuid_filter_match (f : ufilter) (a : attr) : bool :=
-  match f with F16 u => u =? attr_uuid a | F128 => false end.
+  match f with
+  | F16 u => (u =? attr_uuid a) && negb (attr_uuid a =? internal_128bit_uuid)
+  | F128 bytes =>
+      match a with
+      | AValue _ ch _ _ => match c_uuid ch with U128 b => bytes_eqb b bytes | U16 _ => false end
+      | _ => false
+      end
+  end.
 
 Record collect := mkCol { co_buf : list N; co_cur : N; co_size : N; co_first : bool }.
 
@@ -503,18 +507,19 @@ Definition collect_attribute (c : cfg) (st : srv_state) (cid : nat) (k : collect
     end
   else Some (st, k).
 
-(* all_attributes: for ( index = first_index_by_handle( starting_handle ); index <= last_index; ++index ) *)
-Fixpoint all_attributes (fuel : nat) (c : cfg) (st : srv_state) (cid : nat) (f : ufilter) (k : collect) (e index last : N)
+(* all_attributes: for ( index = first_index_by_handle( starting_handle );
+     index <= last_index && handle_by_index( index ) <= ending_handle; ++index ); [eh] = ending handle *)
+Fixpoint all_attributes (fuel : nat) (c : cfg) (st : srv_state) (cid : nat) (f : ufilter) (k : collect) (e index last eh : N)
   : option (srv_state * collect) :=
   match fuel with
   | O => Some (st, k)
   | S n =>
-      if index <=? last then
+      if (index <=? last) && (handle_by_index c index <=? eh) then
         do a <- attribute_at c index;
         if uuid_filter_match f a then
           do r <- collect_attribute c st cid k e index a;
-          let '(st', k') := r in all_attributes n c st' cid f k' e (index + 1) last
-        else all_attributes n c st cid f k e (index + 1) last
+          let '(st', k') := r in all_attributes n c st' cid f k' e (index + 1) last eh
+        else all_attributes n c st cid f k e (index + 1) last eh
       else Some (st, k)
   end.
 
@@ -531,7 +536,7 @@ Definition handle_read_by_type (c : cfg) (st : srv_state) (cid : nat) (pdu b : l
       do opcode <- rd pdu 0;
       do f <- make_uuid_filter pdu (len pdu =? 21);
       do r <- all_attributes (S (N.to_nat (number_of_attributes c))) c st cid f (mkCol b 2 0 true) out_size
-                (first_index_by_handle c sh) (last_handle_index c eh);
+                (first_index_by_handle c sh) (last_handle_index c eh) eh;
       let '(st', k) := r in
       if negb (co_cur k =? 2) then
         do b1 <- put (co_buf k) 0 [9; co_size k];
@@ -554,15 +559,15 @@ Definition read_primary_service_response (c : cfg) (s : service_decl) (b : list 
   else Some (b, out).
 
 (* collect_primary_services::each; [si] = first_index_by_handle( starting_handle ), [eh] the ending
-   HANDLE that the code compares with attribute INDICES (ending_index_( ending_handle )): DESIGN 7
-   item 1; secondary services are not skipped: item 4 *)
+   HANDLE, compared with the handle of the service declaration; only <<Primary Service>> declarations
+   are considered (fix/C02-C03-discovery) *)
 Fixpoint collect_primary_services (c : cfg) (ss : list service_decl) (k : pcollect) (si eh e : N) : option pcollect :=
   match ss with
   | [] => Some k
   | s :: t =>
       let next := pc_index k + svc_nattrs s in
-      if negb (pc_stopped k) && (negb (si =? invalid_index) && (si <=? pc_index k))
-         && ((pc_index k <=? eh) || (eh =? invalid_index)) then
+      if negb (pc_stopped k) && negb (s_secondary s) && (negb (si =? invalid_index) && (si <=? pc_index k))
+         && (handle_by_index c (pc_index k) <=? eh) then
         let s128 := is_128bit (s_uuid s) in
         (* first_: attribute_data_size_ (= output[ 1 ]) is written *)
         do b1 <- (if pc_first k then put (pc_buf k) 1 [if s128 then 20 else 6] else Some (pc_buf k));
@@ -676,7 +681,7 @@ Definition handle_prepare_write (c : cfg) (st : srv_state) (cid : nat) (pdu b : 
         | Failed r => Some (st, r)
         | Passed (h, i) =>
             do a <- attribute_at c i;
-            do r <- access_check_write c st a;
+            do r <- access_check_write c st cid a;
             let '(st1, rc) := r in
             match rc with
             | Success =>
@@ -706,7 +711,7 @@ Fixpoint execute_writes (c : cfg) (st : srv_state) (cid : nat) (elems : list (li
       let '(st', rc) := r in
       match rc with
       | Success => execute_writes c st' cid t
-      | Err code => Some (st', Some (h, if code =? err_invalid_attribute_value_length then code else err_invalid_offset))
+      | Err code => Some (st', Some (h, code))                  (* access_result_to_att_code( rc, invalid_offset ) *)
       | ValueEqual => Some (st', Some (h, err_invalid_offset))
       end
   end.
@@ -774,10 +779,22 @@ Definition att_input (c : cfg) (st : srv_state) (cid : nat) (pdu : list N) (out_
     if n <=? len b' then Some (st', takeN n b') else None.   (* the caller reads out_size bytes of its buffer *)
 
 (* ------------------------------------------------------------------ l2cap_output *)
-(* NOTE out_size is the caller's buffer size, never clipped to the negotiated MTU (DESIGN 7 item 8);
-   the entry is dequeued (an indication becomes outstanding) before the CCCD is looked at (item 10) *)
+(* out_size is clipped to the negotiated MTU like in l2cap_input (fix of DESIGN 7 item 8). The entry is
+   dequeued (an indication becomes outstanding) before the CCCD is looked at; when nothing is sent for
+   a dequeued indication the queue is told not to wait for a confirmation: [unsent_indication]
+   = connection.indication_confirmed() (fix of item 10) *)
+Definition unsent_indication (st : srv_state) (cid : nat) (kd : kind) : srv_state :=
+  match kd with
+  | KNotif => st
+  | KInd => match get_conn st cid with
+            | Some k => set_conn st cid (fst (nq_step k Confirm))
+            | None => st
+            end
+  end.
+
 Definition att_output (c : cfg) (st : srv_state) (cid : nat) (out_cap : N) : option (srv_state * list N) :=
   do k <- get_conn st cid;
+  let out_size := N.min out_cap (negotiated_mtu c k) in
   let '(k1, r) := nq_step k Dequeue in
   let st1 := set_conn st cid k1 in
   let b := repeat fill_byte (N.to_nat out_cap) in
@@ -785,18 +802,18 @@ Definition att_output (c : cfg) (st : srv_state) (cid : nat) (out_cap : N) : opt
   | OEntry (Some (kd, i)) =>
       let required := match kd with KNotif => 1 | KInd => 2 end in
       let '(ai, ci) := find_notification_data_by_index c (N.of_nat i) in
-      if negb (N.land (cccd_get (cccd k1) ci) required =? 0) && (3 <=? out_cap) then
+      if negb (N.land (cccd_get (cccd k1) ci) required =? 0) && (3 <=? out_size) then
         do a <- attribute_at c ai;
-        do x <- access_read c st1 cid a ai 0 (out_cap - 3);
+        do x <- access_read c st1 cid a ai 0 (out_size - 3);
         let '(st2, rc, d) := x in
         match rc with
         | Success =>
             do b1 <- put b 3 d;
             do b2 <- put b1 0 ((match kd with KNotif => 27 | KInd => 29 end) :: le16 (handle_by_index c ai));
             Some (st2, takeN (3 + len d) b2)
-        | _ => Some (st2, [])
+        | _ => Some (unsent_indication st2 cid kd, [])
         end
-      else Some (st1, [])
+      else Some (unsent_indication st1 cid kd, [])
   | _ => Some (st1, [])
   end.
 
